@@ -42,6 +42,14 @@ def add_nfn(evs):
             e.setdefault("evs", [])
             nxt[e["t"]] = "sys_" + e.get("op", "")
         elif e.get("k") in STEP_KINDS:
+            # pa: key under which the event may be pinned to a model label (CallLabels of the spec)
+            k, fn, a = e.get("k"), e.get("fn", ""), e.get("a", "")
+            if k in ("CALL", "CAS2"):
+                e["pa"] = fn
+            elif fn and "." in a and k in ("R", "W", "VR", "VW", "AL", "AS", "XCHG", "RMW", "CAS"):
+                e["pa"] = fn + ":" + a.rsplit(".", 1)[1]
+            else:
+                e["pa"] = ""
             e["nfn"] = nxt.get(e["t"], "")
             fn = e.get("fn", "")
             if e["k"] in ("cont", "reg"):
